@@ -192,10 +192,11 @@ def REPLACE(
     num_chars_int = int(num_chars)
     new_text_str = str(new_text)
 
-    sliced_old_text = old_text_str[start_num_int:
-                                   start_num_int + num_chars_int]
+    if start_num_int < 0 or num_chars_int < 0:
+        raise xlerrors.ValueExcelError('start_num < 1 or num_chars < 0')
 
-    return old_text_str.replace(sliced_old_text, new_text_str)
+    return (old_text_str[:start_num_int] + new_text_str
+            + old_text_str[start_num_int + num_chars_int:])
 
 
 @xl.register()
